@@ -8,6 +8,7 @@ use serde_json::{json, Value};
 use std::collections::{BTreeMap, HashMap};
 use std::io::Write;
 
+mod d_entry;
 mod d_pipe;
 mod d_sel;
 
@@ -98,6 +99,7 @@ fn main() {
   match sub.as_str() {
     "sel" => d_sel::run(&args),
     "pipe" => d_pipe::run(&args),
+    "entry" => d_entry::run(&args),
     x => {
       eprintln!("unknown sub {}", x);
       std::process::exit(2);
